@@ -70,6 +70,11 @@ fn check_caps(t: &str, c: &Captures<'_>) -> Result<(), String> {
     if c.get(0).is_none() {
         return Err("group 0 is None on a successful match".into());
     }
+    for i in [usize::MAX, usize::MAX / 2 + 1, usize::MAX / 2 + 2] {
+        if let Some(m) = c.get(i) {
+            return Err(format!("get({}) is Some({}..{}) although there is no such group", i, m.start(), m.end()));
+        }
+    }
     let mut dst = String::new();
     c.expand("$0-$1-${2}", &mut dst);
     for g in c.iter().flatten() {
@@ -779,6 +784,10 @@ pub struct SplitModel;
 pub struct RP {
     re: Regex,
     vm: bool,
+    /// the same pattern built with RegexBuilder::case_insensitive(true) (judged against its own find_iter)
+    ci: Option<Regex>,
+    /// the same pattern with `^` `$` spelled `\\A` `\\z` (only when no multi-line flag is in play)
+    az: Option<Regex>,
 }
 
 fn collect_split<'a, I: Iterator<Item = fancy_regex::Result<&'a str>>>(mut it: I, max: usize) -> Result<(Vec<&'a str>, bool), String> {
@@ -813,10 +822,38 @@ impl PatProp for SplitModel {
         };
         let vm = engine::is_vm(&re);
         st.class(vm_class(pat, vm));
-        Prep::Ready(RP { re, vm })
+        let ci = match engine::build_with(pat, |b| {
+            b.case_insensitive(true);
+        }) {
+            Built::Ok(r) => Some(r),
+            _ => None,
+        };
+        let az = if n.any(|x| matches!(x, Assert(crate::ast::A::StartText | crate::ast::A::EndText))) && !n.any(|x| matches!(x, Flags(..) | SetFlags(..))) {
+            match engine::build(&n.to_pattern_with(&PrintOpts { anchors_az: true, ..Default::default() })) {
+                Built::Ok(r) => Some(r),
+                _ => None,
+            }
+        } else {
+            None
+        };
+        Prep::Ready(RP { re, vm, ci, az })
     }
 
-    fn eval(&self, _ctx: &RunCtx, p: &RP, _n: &Node, t: &str, _pos: usize) -> Verdict {
+    fn eval(&self, ctx: &RunCtx, p: &RP, n: &Node, t: &str, pos: usize) -> Verdict {
+        // the variants first: each is judged against its own find_iter
+        for (name, v) in [("case_insensitive(true)", &p.ci), ("\\A \\z spelling", &p.az)] {
+            if let Some(re) = v {
+                if let Verdict::Fail(f) = self.eval_one(ctx, &RP { re: re.clone(), vm: p.vm, ci: None, az: None }, n, t, pos) {
+                    return Verdict::Fail(Fail { actual: format!("[{}] {}", name, f.actual), ..f });
+                }
+            }
+        }
+        self.eval_one(ctx, p, n, t, pos)
+    }
+}
+
+impl SplitModel {
+    fn eval_one(&self, _ctx: &RunCtx, p: &RP, _n: &Node, t: &str, _pos: usize) -> Verdict {
         let bound = t.chars().count() + 3;
         let ms = match engine::find_iter_spans(&p.re, t, bound) {
             Out::Val((v, None)) if v.len() <= bound => v,
@@ -889,11 +926,13 @@ impl PatProp for SplitModel {
 pub fn run_c10(ctx: &RunCtx) -> Outcome {
     let p = SplitModel;
     let mut o = Outcome::default();
-    o.rule = "C01 pattern space (+\\G, nullable patterns and the F1 class included: the oracle is the crate's own find_iter, not the reference); per text: split == slices between consecutive find_iter matches (#pieces = #matches + 1), interleaving pieces and matches rebuilds the input byte for byte, splitn(t,n) for n in 0..=5 yields min(n,pieces) items (first n-1 as split, last the untouched remainder, nothing for n=0), both iterators are fused. Non-trivial = >= 1 match and (an empty piece, a multi-byte separator or >= 2 matches). Distinct = distinct (pattern, text).".into();
+    o.rule = "C01 pattern space (+\\G, nullable patterns and the F1 class included: the oracle is the crate's own find_iter, not the reference); per text: split == slices between consecutive find_iter matches (#pieces = #matches + 1), interleaving pieces and matches rebuilds the input byte for byte, splitn(t,n) for n in 0..=5 yields min(n,pieces) items (first n-1 as split, last the untouched remainder, nothing for n=0), both iterators are fused; the same for the pattern built with RegexBuilder::case_insensitive(true) and for its \\A / \\z spelling, each against its own find_iter. Non-trivial = >= 1 match and (an empty piece, a multi-byte separator or >= 2 matches). Distinct = distinct (pattern, text).".into();
     o.assumptions = vec!["find_iter itself is judged by C08; texts on which it errs or is invalid are skipped here".into()];
     o.required_classes = vec!["matches:>=2".into(), "matches:1".into(), "engine:VM/0-delegates".into()];
     let pats = iter_space(ctx);
-    let texts = iter_texts(ctx.quick());
+    let mut texts = iter_texts(ctx.quick());
+    // other-case occurrences for the case_insensitive(true) variant
+    texts.extend(["aA", "Aa", "AB", "aBAb", "AB-ab", "bA", "ÉaA"].iter().map(|s| s.to_string()));
     if !stage(ctx, &mut o, &p, "core + \\G + é leaves, enumerated", &pats, &texts) {
         return o;
     }
@@ -1048,7 +1087,7 @@ impl PatProp for ReplaceModel {
                 if !agree {
                     continue;
                 }
-                for tpl in ["<$0>", "${1}x$$", "$1x", "[$2|$1]", "$$", "x$$y$", "${", "$é"] {
+                for tpl in ["<$0>", "${1}x$$", "$1x", "[$2|$1]", "$$", "x$$y$", "${", "$é", "<${9223372036854775808}>", "[${9223372036854775809}$18446744073709551615]"] {
                     let want = model(limit, &|c| model::expand(tpl, true, &CapGroups { c, t }));
                     check(tpl, re.try_replacen(t, limit, tpl), want)?;
                 }
@@ -1086,6 +1125,17 @@ impl PatProp for ReplaceModel {
             }
         }
         if let Some(lre) = &p.limited {
+            // a `$`-free template, NoExpand of it and a closure returning it give identical results - also when a
+            // search fails on the way (the literal path and the capture path must report the same error)
+            for n in 0..=2usize {
+                let show = |r: fancy_regex::Result<Cow<'_, str>>| r.map(|c| c.into_owned()).map_err(|e| engine::err_kind(&e));
+                let three = catch_unwind(AssertUnwindSafe(|| (show(lre.try_replacen(t, n, "X-")), show(lre.try_replacen(t, n, NoExpand("X-"))), show(lre.try_replacen(t, n, |_: &Captures<'_>| "X-")))));
+                if let Ok((a, b, c)) = three {
+                    if a != b || a != c {
+                        return Verdict::Fail(Fail::new("replace-limited-paths-differ", format!("backtrack_limit(1), n = {}: template {:?}", n, a), format!("NoExpand {:?} / closure {:?}", b, c)));
+                    }
+                }
+            }
             // same through a closure replacer (the capture-expanding path)
             match catch_unwind(AssertUnwindSafe(|| lre.try_replacen(t, 0, |c: &Captures<'_>| format!("<{}>", &c[0])).map(|c| c.into_owned()))) {
                 Err(e) => return Verdict::Fail(Fail::new("panic", "Ok or Err under backtrack_limit(1)", format!("closure: PANIC({})", engine::panic_msg(e)))),
@@ -1147,7 +1197,7 @@ pub struct MP {
     vm: bool,
 }
 
-const NAMES: [&str; 4] = ["x", "y1", "_z", "π"];
+const NAMES: [&str; 5] = ["x", "77", "y1", "_z", "π"];
 
 fn naming(n: &Node) -> PrintOpts {
     let g = n.n_groups();
@@ -1238,6 +1288,12 @@ impl PatProp for Meta {
             for k in 0..3 {
                 if c.get(c.len() + k).is_some() {
                     return Err(Fail::new("get-out-of-range", "None", format!("get({}) is Some", c.len() + k)));
+                }
+            }
+            // indices whose doubled value wraps around
+            for i in [usize::MAX, usize::MAX / 2, usize::MAX / 2 + 1, usize::MAX / 2 + 2, (usize::MAX / 2 + 1) | 1 << 62, 1 << 62] {
+                if c.get(i).is_some() {
+                    return Err(Fail::new("get-out-of-range", "None", format!("get({}) is Some", i)));
                 }
             }
             for (i, name) in p.names.iter().enumerate() {
